@@ -140,6 +140,16 @@ def helper_status(h: ast.AST, mod: Any) -> Tuple[str, str]:
                 return 'bad', (f'{h.name}() returns text unescaped when it matches `{pat}`, and that pattern accepts {hit[0]!r}: the character is written raw '      # type: ignore[attr-defined]
                                '(a raw CR inside quotes is read back as LF, a quote ends the string)')
             continue
+        # the value taken apart and only some of the pieces escaped: `parts = RX.split(text); parts[::2] = map(escape_text, parts[::2]);
+        # return ''.join(parts)` - the other pieces (what the pattern matched) are written as they are
+        pieces = {t.id for a in ast.walk(h) if isinstance(a, ast.Assign) and isinstance(a.value, ast.Call) and isinstance(a.value.func, ast.Attribute) and a.value.func.attr in ('split', 'rsplit', 'partition', 'rpartition', 'findall')
+                  and any(isinstance(x, ast.Name) and x.id == prm for x in ast.walk(a.value)) for t in a.targets if isinstance(t, ast.Name)}
+        partial = [a for a in ast.walk(h) if isinstance(a, ast.Assign) and len(a.targets) == 1 and isinstance(a.targets[0], ast.Subscript) and isinstance(a.targets[0].value, ast.Name) and a.targets[0].value.id in pieces
+                   and isinstance(a.targets[0].slice, ast.Slice) and any(isinstance(c, ast.Name) and c.id == 'escape_text' for c in ast.walk(a.value))]
+        joined = isinstance(v, ast.Call) and isinstance(v.func, ast.Attribute) and v.func.attr == 'join' and v.args and isinstance(v.args[0], ast.Name) and v.args[0].id in pieces
+        if partial and joined:
+            return 'bad', (f'{h.name}() splits its argument, escapes only the slice `{U(partial[0].targets[0])}` of the pieces and joins all of them: whatever the other pieces hold '      # type: ignore[attr-defined]
+                           '(text that merely looks like an escape sequence - a Windows path, a doubled backslash) is written raw and decoded when the file is read back')
         return 'unknown', f'{h.name}() returns `{U(v)[:40]}`'        # type: ignore[attr-defined]
     return 'ok', ''
 
